@@ -13,6 +13,7 @@ import sys, os, re, json, subprocess, multiprocessing, multiprocessing.pool
 sys.path.insert(0, os.path.join(os.path.dirname(os.path.abspath(__file__)), "..", "lib"))
 from vlib import *
 
+DEEP_STACK = 1 << 20       # stack limit for the deep-recursion case (default is 8 MiB: same death at depth ~40000)
 TAG_LIMIT = 2**30          # ber_fetch_tag: tag numbers < 2^30 (32-bit ber_tlv_tag_t, 2 class bits)
 TL_BUF = 32                # process_deeper: unsigned char tagbuf[32]
 CLASS_WORD = ["UNIVERSAL ", "APPLICATION ", "", "PRIVATE "]
@@ -233,9 +234,15 @@ def _init(unber, enber, unber_asan, tmpdir):
     _W.update(unber=unber, enber=enber, asan=unber_asan, tmp=tmpdir)
 
 
+def _small_stack():
+    import resource
+    resource.setrlimit(resource.RLIMIT_STACK, (DEEP_STACK, DEEP_STACK))
+
+
 def _run(cmd, inp=None, env=None, timeout=20, discard=False):
     try:
-        p = subprocess.run(cmd, input=inp, stdout=subprocess.DEVNULL if discard else subprocess.PIPE, stderr=subprocess.PIPE, timeout=timeout, env=env)
+        p = subprocess.run(cmd, input=inp, stdout=subprocess.DEVNULL if discard else subprocess.PIPE, stderr=subprocess.PIPE, timeout=timeout, env=env,
+                           preexec_fn=_small_stack if discard else None)
         return p.returncode, (b"" if discard else p.stdout), p.stderr.decode("latin1")[-1500:]
     except subprocess.TimeoutExpired:
         return "timeout", b"", ""
@@ -246,7 +253,8 @@ def _work(batch):
     path = os.path.join(_W["tmp"], "in.%d.ber" % os.getpid())
     for idx, x, want_asan, want_enber in batch:
         open(path, "wb").write(x)
-        # (the indentation makes the output of a very deep document quadratic: discarded there)
+        # (deep documents: the indentation makes the output quadratic in the depth, so it is discarded
+        # and the run is made under a 1 MiB stack limit, where the recursion dies ~8 times earlier)
         urc, uout, uerr = _run([_W["unber"], "-p", path], discard=not want_enber, timeout=20 if want_enber else 120)
         uerr = uerr.replace(path, "F")
         erc, eout, eerr = (None, b"", "")
@@ -458,6 +466,7 @@ def main(tier):
     if not ok or ndis != nthm or nthm == 0 or gate:
         run.violation("proof:Properties_C20", {"what": "Coq development does not build or an obligation is open",
                                                "log_tail": (out if not ok else plog)[-2000:], "grep_gate": gate}, no_input=True)
+    log("[c20] proofs %.1fs" % (time.time() - T0))
     # 2. builds
     model = model_build()
     try:
@@ -467,7 +476,8 @@ def main(tier):
         run.violation("build:tools", {"what": str(e)[-2000:]}, no_input=True)
         return run.finish("proof", (nthm, ndis))
 
-    # 3. cases: (kind, bytes, tree or None)
+    log("[c20] builds %.1fs" % (time.time() - T0))
+    # 3. cases: (kind, bytes, forest or None)
     cases = []
     for t in boundary_trees():
         cases.append(("wf-boundary", encode(t), [t]))
@@ -507,9 +517,11 @@ def main(tier):
     for k, x in mutate_stream(rng, small_docs, tier):
         cases.append(("mal-" + k, x, None))
     # unbounded recursion of process_deeper: one deep, perfectly well-formed document
-    deep_n = 60000
+    deep_n = 20000
     cases.append(("deep", b"\x30\x80" * deep_n + b"\x00\x00" * deep_n, None))
+    cases.append(("deep", b"\x30\x80" * 1000 + b"\x00\x00" * 1000, None))      # same shape, shallow: must be fine
 
+    log("[c20] %d cases generated %.1fs" % (len(cases), time.time() - T0))
     # 4. run the binaries
     tmpdir = os.path.join(scratch(), "c20io")
     os.makedirs(tmpdir, exist_ok=True)
@@ -526,6 +538,7 @@ def main(tier):
             for r in rs:
                 results[r[0]] = r
 
+    log("[c20] binaries done %.1fs" % (time.time() - T0))
     # 5. the model on the same inputs (split over several driver processes)
     midx = [i for i, c in enumerate(cases) if c[0] != "deep"]
     mlines = []
@@ -555,6 +568,7 @@ def main(tier):
         raise RuntimeError("model driver failed on spec queries: rc=%s %s" % (rc_s, se))
     sres = {i: (so[2 * k], so[2 * k + 1]) for k, i in enumerate(sidx)}
 
+    log("[c20] model done %.1fs" % (time.time() - T0))
     # 6. compare
     def replay(x):
         h = x.hex()
@@ -573,12 +587,14 @@ def main(tier):
         # -------- memory safety / termination (oracle, all inputs)
         bad_exit = uex.startswith("CRASH") or uex in ("ABORT", "FAIL:?", "OK+stderr") or urc == "timeout"
         if kind == "deep":
-            run.count("deep:" + uex)
+            dn = len(x) // 4
+            run.count("deep:%d:%s" % (dn, uex))
             if bad_exit:
-                if urc in (-11, 139):
-                    run.known_finding("C20-deep-recursion", "depth %d" % deep_n)
+                if urc in (-11, 139) and dn >= 4000:
+                    run.known_finding("C20-deep-recursion", "depth %d" % dn)
                 else:
-                    run.violation("oracle:memory-safety", dict(rp, what="unber died on a deeply nested document", exit=uex, input_hex="3080 x %d, 0000 x %d" % (deep_n, deep_n)))
+                    run.violation("oracle:memory-safety", dict(rp, what="unber died on a nested document (stack limit %d)" % DEEP_STACK, exit=uex,
+                                                               input_hex="3080 x %d, 0000 x %d" % (dn, dn)))
             continue
         if bad_exit:
             run.violation("oracle:memory-safety", dict(rp, what="unber did not end with exit 0 or a diagnostic and exit 65", exit=uex, stderr=uerr[-600:]))
